@@ -5,10 +5,12 @@
 (* guard that protects it".)                                                  *)
 (*                                                                            *)
 (* A function body is a tree of                                               *)
-(*   <<"E">>            an instance of the repeated subexpression (it may     *)
-(*                      fail, e.g. (sha256 (f (f X)) 1) on an atom X)         *)
-(*   <<"K", k>>         a constant                                            *)
-(*   <<"if", c, t, e>>  c is a guard variable <<"g", i>> or <<"E">>           *)
+(*   <<"E", 0>>         an instance of the repeated subexpression (it may     *)
+(*                      fail, e.g. (sha256 (f (f X)) 1) on an atom X; its     *)
+(*                      value is true)                                        *)
+(*   <<"K", 0>>         a (true) constant                                     *)
+(*   <<"g", i>>         a guard variable: a parameter that is true or nil     *)
+(*   <<"if", c, t, e>>  c, t, e are trees (conditions may be ifs themselves)  *)
 (* Source meaning: call by value with a lazy if.  Binding E once above the    *)
 (* tree ("hoisting") evaluates it unconditionally.  The rule the compiler     *)
 (* uses: hoist only when every condition above an instance is *covered*: E    *)
@@ -19,33 +21,34 @@ EXTENDS Naturals, Sequences, FiniteSets, TLC
 CONSTANTS Depth, Rule
 
 Guards == {1, 2}
-Conds == {<<"g", 1>>, <<"g", 2>>, <<"E", 0>>}
+Leaves == {<<"E", 0>>, <<"K", 0>>, <<"g", 1>>, <<"g", 2>>}
 RECURSIVE Trees(_)
-Trees(d) == IF d = 0 THEN {<<"E", 0>>, <<"K", 1>>, <<"K", 2>>}
-            ELSE Trees(d - 1) \cup {<<"if", c, t, e>> : c \in Conds, t \in Trees(d - 1), e \in Trees(d - 1)}
+Trees(d) == IF d = 0 THEN Leaves
+            ELSE Trees(d - 1) \cup {<<"if", c, t, e>> : c \in Trees(d - 1), t \in Trees(d - 1), e \in Trees(d - 1)}
 
-\* ---- source meaning; the outcome is "fail", "E" (the value of the subexpression) or <<"K", k>>
+\* ---- source meaning; the outcome is Fail, EVal (the value of the subexpression), <<"K", 0>>, True or Nil
 Fail == <<"fail", 0>>
 EVal == <<"E", 0>>
+True == <<"t", 0>>
+Nil == <<"n", 0>>
 RECURSIVE Eval(_, _, _)
 Eval(t, G, efail) ==
   CASE t[1] = "E" -> IF efail THEN Fail ELSE EVal
     [] t[1] = "K" -> t
+    [] t[1] = "g" -> IF G[t[2]] THEN True ELSE Nil
     [] t[1] = "if" ->
-         LET c == IF t[2][1] = "E" THEN (IF efail THEN "fail" ELSE "true")
-                  ELSE (IF G[t[2][2]] THEN "true" ELSE "false")
-         IN IF c = "fail" THEN Fail ELSE IF c = "true" THEN Eval(t[3], G, efail) ELSE Eval(t[4], G, efail)
+         LET c == Eval(t[2], G, efail)
+         IN IF c = Fail THEN Fail ELSE IF c # Nil THEN Eval(t[3], G, efail) ELSE Eval(t[4], G, efail)
 
 \* ---- paths: sequences over {1 (condition), 2, 3}
 RECURSIVE Instances(_)
 Instances(t) ==
   CASE t[1] = "E" -> {<<>>}
-    [] t[1] = "K" -> {}
-    [] t[1] = "if" -> (IF t[2][1] = "E" THEN {<<1>>} ELSE {})
-                      \cup {<<2>> \o p : p \in Instances(t[3])} \cup {<<3>> \o p : p \in Instances(t[4])}
+    [] t[1] = "if" -> {<<1>> \o p : p \in Instances(t[2])} \cup {<<2>> \o p : p \in Instances(t[3])} \cup {<<3>> \o p : p \in Instances(t[4])}
+    [] OTHER -> {}
 RECURSIVE CondPaths(_)
 CondPaths(t) == IF t[1] # "if" THEN {} ELSE
-   {<<>>} \cup {<<2>> \o p : p \in CondPaths(t[3])} \cup {<<3>> \o p : p \in CondPaths(t[4])}
+   {<<>>} \cup {<<1>> \o p : p \in CondPaths(t[2])} \cup {<<2>> \o p : p \in CondPaths(t[3])} \cup {<<3>> \o p : p \in CondPaths(t[4])}
 IsPrefix(p, q) == Len(p) <= Len(q) /\ SubSeq(q, 1, Len(p)) = p
 Above(c, i) == IsPrefix(c, i) /\ c # i       \* condition c encloses instance i (an instance in c's own condition counts)
 Covering(c, I) == \/ \E i \in I : IsPrefix(c \o <<1>>, i)
